@@ -44,6 +44,11 @@ func Apply(in Instr, xs []*T) (*T, error) {
 	switch in.Op {
 	case "leaf":
 		return New(in.Shape, append([]float64(nil), in.Data...)), nil
+	case "full":
+		if err := ValidDims(in.Shape); err != nil {
+			return nil, err
+		}
+		return Full(in.Shape, in.F), nil
 	case "slice":
 		return xs[0].Slice(in.Index)
 	case "patch":
@@ -181,7 +186,7 @@ func (p Prog) Eval() ([]*T, error) {
 func (p Prog) TrackedSet() []bool {
 	tr := make([]bool, len(p))
 	for i, in := range p {
-		if in.Op == "leaf" {
+		if in.Op == "leaf" || in.Op == "full" {
 			tr[i] = in.Tracked
 			continue
 		}
@@ -219,7 +224,7 @@ func (p Prog) Grad(vals []*T, root int, seed *T, rule BroadcastRule) []*T {
 	}
 	g[root] = seed.Clone()
 	for i := root; i >= 0; i-- {
-		if g[i] == nil || p[i].Op == "leaf" {
+		if g[i] == nil || p[i].Op == "leaf" || p[i].Op == "full" {
 			continue
 		}
 		in := p[i]
